@@ -39,9 +39,9 @@ RULE = ("Hypothesis draws a ragged array description: 1..6 rows of length 1..7 (
         "all equal, or when it hits equal-length rows with a negative bound or step; for one-dimensional forms and "
         "attributes when there are >= 2 rows of unequal length. distinct = distinct canonical JSON of the case. "
         "Thorough additionally enumerates every length vector with <= 3 rows of length <= 3 against every pair of "
-        "slices (first dimension: bounds in [-(n+1), n+1] + None, steps {None,2,-1}; second dimension: bounds in "
-        "[-4,4] + None, steps {None,1,2,-1}), every a[slice] and a[i, slice] on that grid, every (i,j) in [-5,5]^2 "
-        "and every a[slice, j] with j in [-4,4].")
+        "slices (bounds None or within one beyond the extent: [-(n+1), n+1] over n rows, [-(L+1), L+1] over the "
+        "longest row; steps {None,2,-1}), every a[slice] and a[i, slice] with bounds in [-4,4] + None and steps "
+        "{None,1,2,-1}, every (i,j) in [-5,5]^2 and every a[slice, j] with j in [-4,4].")
 ASSUMPTIONS = [
     "row lengths are positive (the class cannot represent empty rows); results with empty rows / no rows may raise",
     "index lists / arrays are non-empty integer sequences; paired fancy indices have equal length "
@@ -281,7 +281,7 @@ def case_dim1_general(draw, **kw):
         s1 = draw(st.sampled_from([[None, None, -1], [None, None, -2], [-1, None, -1], [n - 1, None, -1],
                                    [-n - 1, None, None], [-n - 2, None, 1], [None, n + 1, None], [0, n + 2, 1],
                                    [-n - 1, n + 1, 1], [n + 1, None, -1], [None, -n - 1, -1], [n, 0, -1],
-                                   [-1, 0, -1], [-1, -n - 1, -1], [-1, -n - 2, -2]]))
+                                   [-1, 0, -1], [-1, -n - 1, -1], [-1, -n - 2, -2], [n - 1, -n - 1, -1]]))
     kind = draw(st.sampled_from(["slice", "slice", "int", "cols"]))
     if kind == "slice":
         b = {"t": "slice", "v": draw(st.sampled_from([[None, None, None], [0, None, None], [None, m, None],
@@ -610,10 +610,12 @@ def exh_slice_pairs(tier, shard, nshards):
         k = 0
         for lv in small_length_vectors():
             n = len(lv)
-            # first dimension: bounds one beyond the number of rows on either side (further out is the same
-            # clipping class), steps None/2/-1; second dimension: the full [-4, 4] + None x {None, 1, 2, -1} grid
+            L = max(lv)
+            # bounds reach one beyond the extent on either side (further out is the same clipping class):
+            # [-(n+1), n+1] + None over the rows, [-(L+1), L+1] + None over the longest row; steps None/2/-1
+            # (step 1 is enumerated in the a[slice] / a[i, slice] grid and drawn in every random clause)
             for s1 in small_slices(-n - 1, n + 1, (None, 2, -1)):
-                for s2 in small_slices():
+                for s2 in small_slices(-L - 1, L + 1, (None, 2, -1)):
                     k += 1
                     yield _with(_base(lv, hows[k % 3]), tup({"t": "slice", "v": s1}, {"t": "slice", "v": s2}))
     return _sharded(gen(), shard, nshards)
@@ -667,45 +669,45 @@ ALL = dict(eshapes=("scalar", "scalar", "vec2", "mat32"), max_rows=12, max_len=2
 
 CLAUSES = [
     # attributes, iteration, flatten, construction paths
-    Clause("construct_attrs", case_attrs(**SC), run_attrs_scalar, quick=600, thorough=4800,
+    Clause("construct_attrs", case_attrs(**SC), run_attrs_scalar, quick=600, thorough=3600,
            doc="lengths/starts/shape/size/dtype/len/flatten/iteration/a[k] of a fresh array, 5 construction paths"),
     # first-dimension reads
-    Clause("row_int", case_row_int(**SC), run_read, quick=400, thorough=3200, doc="a[i]"),
-    Clause("row_slice", case_row_slice(**SC), run_read, quick=600, thorough=4800, doc="a[slice]",
+    Clause("row_int", case_row_int(**SC), run_read, quick=400, thorough=2400, doc="a[i]"),
+    Clause("row_slice", case_row_slice(**SC), run_read, quick=600, thorough=3600, doc="a[slice]",
            exhaustive=exh_rows_and_int_slice),
-    Clause("row_list", case_row_list(**SC), run_read, quick=400, thorough=3200, doc="a[list|ndarray of rows]"),
+    Clause("row_list", case_row_list(**SC), run_read, quick=400, thorough=2400, doc="a[list|ndarray of rows]"),
     # elements
-    Clause("element", case_element(**SC), run_read, quick=500, thorough=4000, doc="a[i, j] inside the row",
+    Clause("element", case_element(**SC), run_read, quick=500, thorough=3000, doc="a[i, j] inside the row",
            exhaustive=exh_elements),
-    Clause("oob_raises", case_oob(**SC), run_oob, quick=1200, thorough=9600,
+    Clause("oob_raises", case_oob(**SC), run_oob, quick=1200, thorough=7200,
            doc="element access outside a row raises (never a neighbouring row's data)"),
     # two-dimensional slices
-    Clause("int_slice", case_int_slice(**SC), run_read, quick=600, thorough=4800, doc="a[i, slice], any signs"),
-    Clause("slice2d_forward", case_slice2d(sign="forward", **SC), run_read, quick=1200, thorough=9600,
+    Clause("int_slice", case_int_slice(**SC), run_read, quick=600, thorough=3600, doc="a[i, slice], any signs"),
+    Clause("slice2d_forward", case_slice2d(sign="forward", **SC), run_read, quick=1200, thorough=7200,
            doc="a[slice|rows, slice] with start >= 0 / None and positive step (any stop)"),
-    Clause("slice2d_negstart", case_slice2d(sign="negstart", **SC), run_read, quick=900, thorough=7200,
+    Clause("slice2d_negstart", case_slice2d(sign="negstart", **SC), run_read, quick=900, thorough=5400,
            doc="a[slice|rows, slice] with a negative start in the second dimension"),
-    Clause("slice2d_negstep", case_slice2d(sign="negstep", **SC), run_read, quick=900, thorough=7200,
+    Clause("slice2d_negstep", case_slice2d(sign="negstep", **SC), run_read, quick=900, thorough=5400,
            doc="a[slice|rows, slice] with a negative step in the second dimension"),
-    Clause("dim1_general", case_dim1_general(**SC), run_read, quick=900, thorough=7200,
+    Clause("dim1_general", case_dim1_general(**SC), run_read, quick=900, thorough=5400,
            doc="a[s, .] with negative steps / bounds beyond the number of rows in the first dimension"),
-    Clause("slice_cols", case_slice_cols(**SC), run_read, quick=700, thorough=5600, doc="a[slice, j], a[slice, cols]",
+    Clause("slice_cols", case_slice_cols(**SC), run_read, quick=700, thorough=4200, doc="a[slice, j], a[slice, cols]",
            exhaustive=exh_slice_int),
     # fancy
-    Clause("paired", case_paired(**SC), run_read, quick=900, thorough=7200,
+    Clause("paired", case_paired(**SC), run_read, quick=900, thorough=5400,
            doc="a[(rows, cols)], a[i, cols], a[rows, j]"),
-    Clause("mask", case_mask(**SC), run_read, quick=700, thorough=5600, doc="a[ragged bool mask] + ra.where"),
-    Clause("mask_none_selected", case_mask(none_selected=True, **SC), run_read, quick=100, thorough=800,
+    Clause("mask", case_mask(**SC), run_read, quick=700, thorough=4200, doc="a[ragged bool mask] + ra.where"),
+    Clause("mask_none_selected", case_mask(none_selected=True, **SC), run_read, quick=100, thorough=600,
            doc="a[mask] / ra.where with an all-False mask returns an empty selection"),
     # multi-dimensional elements
-    Clause("multidim_construct", case_attrs(**MD), run_attrs_multidim, quick=600, thorough=4800,
+    Clause("multidim_construct", case_attrs(**MD), run_attrs_multidim, quick=600, thorough=3600,
            doc="construct_attrs for (2,) and (3,2) elements (without shape)"),
-    Clause("multidim_shape", case_attrs(**MD), run_shape_multidim, quick=100, thorough=800,
+    Clause("multidim_shape", case_attrs(**MD), run_shape_multidim, quick=100, thorough=600,
            doc="shape == (n_rows, common length | None) + element shape"),
-    Clause("multidim_reads", case_any(**MD), run_read, quick=2500, thorough=20000,
+    Clause("multidim_reads", case_any(**MD), run_read, quick=2500, thorough=15000,
            doc="every grammar form on arrays of (2,) and (3,2) elements"),
     # thorough only
-    Clause("any_large", case_any(**ALL), run_read, quick=0, thorough=20000, doc="every form, up to 12 rows"),
+    Clause("any_large", case_any(**ALL), run_read, quick=0, thorough=15000, doc="every form, up to 12 rows"),
     Clause("slice_pairs_small", case_slice2d(**SC), run_read, quick=0, thorough=0, exhaustive=exh_slice_pairs,
            doc="exhaustive: <=3 rows of length <=3 x all slice pairs"),
 ]
